@@ -536,9 +536,26 @@ package plenccodec
 //@ func plenccodec.*Descriptor.read
 //@   safety C04 C13
 //@   ensures[C04] err == nil ==> 0 <= n && n <= len(data)
+//@   # scalars: the walker hands the outputter exactly the value the typed decoder of that kind reads from the same bytes
+//@   ensures[C13] d.Type == 0 ==> called_Outputter_Int64 && (forall s int64 :: len(data) >= vlen(zz(s)) && at(data, 0, venc(zz(s)), 10) ==> call_Outputter_Int64_arg1 == s)
+//@   ensures[C13] d.Type == 1 ==> called_Outputter_Uint64 && (forall u uint64 :: len(data) >= vlen(u) && at(data, 0, venc(u), 10) ==> call_Outputter_Uint64_arg1 == u)
+//@   ensures[C13] d.Type == 7 ==> called_Outputter_Bool
+//@   ensures[C13] d.Type == 4 ==> called_Outputter_String && len(call_Outputter_String_arg1) == len(data)
+//@   ensures[C13] d.Type == 3 ==> called_Outputter_Float64
+//@   ensures[C13] d.Type == 2 ==> called_Outputter_Float32
+//@   ensures[C13] d.Type == 8 ==> called_Outputter_Time
+//@   # containers are opened and closed: an array or object for a slice, an object for a struct
+//@   ensures[C13] d.Type == 9 ==> called_Outputter_StartObject && called_Outputter_EndObject
+//@   ensures[C13] d.Type == 10 ==> called_Outputter_StartArray && called_Outputter_EndArray
+//@   ensures[C13] d.Type == 5 ==> (called_Outputter_StartArray && called_Outputter_EndArray) || (called_Outputter_StartObject && called_Outputter_EndObject)
 
 //@ func plenccodec.*Descriptor.readAsSlice
 //@   safety C04 C13
+//@   # every kind of element a slice codec describes is accepted: the numbers, bool, time, string, struct and slice
+//@   # (0 Int, 1 Uint, 2 Float32, 3 Float64, 4 String, 5 Slice, 6 Struct, 7 Bool, 8 Time, 11 FlatInt)
+//@   ensures[C13] len(d.Elements) > 0 && len(data) == 0 && (d.Elements[0].Type <= 8 || d.Elements[0].Type == 11) && d.Elements[0].Type >= 0 ==> err == nil
+//@   # a counted slice yields one element event per entry - also for an entry that encodes to nothing (an empty string, a zero struct)
+//@   loop 2 step[C13] called_Descriptor_read
 //@   loop 1 invariant[C04] 0 <= offset && offset <= len(data)
 //@   loop 1 decreases len(data) - offset
 //@   loop 2 invariant[C04] 0 <= offset && offset <= len(data) && 0 <= i
@@ -547,6 +564,12 @@ package plenccodec
 
 //@ func plenccodec.*Descriptor.readAsStruct
 //@   safety C04 C13
+//@   # per field of the data: an index the descriptor does not know is skipped by exactly its frame and yields no event;
+//@   # a known one yields its name and then the walk of exactly the field's bytes with the element descriptor of that index
+//@   loop 1 step[C13,C03] called_Skip ==> !called_Descriptor_read && !called_Outputter_NameField && offset == head_offset + call_ReadTag_r2 + call_Skip_r0
+//@   loop 1 step[C13] called_Descriptor_read ==> called_Outputter_NameField && call_Outputter_NameField_arg1 == call_Descriptor_read_arg0.Name && call_Descriptor_read_arg0.Index == call_ReadTag_r1
+//@   loop 1 step[C13] called_Descriptor_read && called_ReadVarUint ==> len(call_Descriptor_read_arg2) == int(call_ReadVarUint_r0) && offset == head_offset + call_ReadTag_r2 + call_ReadVarUint_r1 + call_Descriptor_read_r0
+//@   loop 1 step[C13] called_Descriptor_read && !called_ReadVarUint ==> offset == head_offset + call_ReadTag_r2 + call_Descriptor_read_r0
 //@   loop 1 invariant[C04] 0 <= offset && offset <= l && l == len(data)
 //@   loop 1 decreases l - offset
 //@   loop 2 invariant[C04] 0 <= rangeindex + 1
@@ -1303,4 +1326,108 @@ package plenccodec
 //@   # every entry: the map field's tag, the entry's length as announced by sizeForEntry, then exactly that many bytes
 //@   loop 1 step[C05,C12,C02] called_MapCodec_sizeForEntry ==> call_MapCodec_sizeForEntry_arg1 == call_mapiterkey_r0 && call_MapCodec_sizeForEntry_arg2 == call_mapiterelem_r0 && call_AppendVarUint_arg1 == uint64(call_MapCodec_sizeForEntry_r0) && len(data) == athead(len(data)) + len(tag) + vlen(uint64(call_MapCodec_sizeForEntry_r0)) + call_MapCodec_sizeForEntry_r0
 //@   loop 1 step[C12,C02] called_MapCodec_sizeForEntry && len(tag) <= 16 ==> at(data, athead(len(data)), bytes(tag), 16)
+//@   ensures[C06,C11] len(result) >= len(data) && (forall j int :: 0 <= j && j < len(data) ==> result[j] == old(data[j]))
+
+//@ # ---- JSON-any codecs: encoders (C16). Values outside the JSON model make these functions panic by design
+//@ # ("unexpected json type"): that panic is the documented precondition and is trusted, everything else is checked.
+//@ func plenccodec.sizeJSONValue
+//@   safety C16
+//@   trust panic
+//@   pure H B
+//@   assigns nothing
+//@   # per kind of leaf value: the type marker field (2 bytes) plus the value field as its plain codec sizes it
+//@   ensures[C16,C05] isnil(v) ==> result == 2
+//@   ensures[C16,C05] v.typ == tid(string) ==> result == 2 + 1 + vlen(uint64(len(loadstr(v.data)))) + len(loadstr(v.data))
+//@   ensures[C16,C05] v.typ == tid(bool) ==> result == 2 + 1 + 1
+//@   ensures[C16,C05] v.typ == tid(float64) ==> result == 2 + 1 + 8
+//@   ensures[C16,C05] v.typ == tid(int) ==> result == 2 + 1 + vlen(zz(loadi64(v.data)))
+
+//@ func plenccodec.appendJSONValue
+//@   safety C16 C11
+//@   trust panic
+//@   assigns nothing
+//@   # Size and Append agree for every leaf value: exactly the bytes sizeJSONValue announces are added
+//@   ensures[C16,C05] isnil(v) ==> len(result) == len(data) + 2
+//@   ensures[C16,C05] v.typ == tid(string) ==> len(result) == len(data) + 2 + 1 + vlen(uint64(len(loadstr(v.data)))) + len(loadstr(v.data))
+//@   ensures[C16,C05] v.typ == tid(bool) ==> len(result) == len(data) + 2 + 1 + 1
+//@   ensures[C16,C05] v.typ == tid(float64) ==> len(result) == len(data) + 2 + 1 + 8
+//@   ensures[C16,C05] v.typ == tid(int) ==> len(result) == len(data) + 2 + 1 + vlen(zz(loadi64(v.data)))
+//@   ensures[C06,C11] len(result) >= len(data) && (forall j int :: 0 <= j && j < len(data) ==> result[j] == old(data[j]))
+
+//@ # arrays: count, then every element behind the size sizeJSONValue announces for it
+//@ func plenccodec.JSONArrayCodec.size
+//@   safety C16
+//@   trust panic
+//@   assigns nothing
+//@   assume 0 <= loadi64(ptr + 8) && loadi64(ptr + 8) <= loadi64(ptr + 16) && loadi64(ptr + 16) < (1 << 40)   # the value is a well-formed slice header
+//@   loop 1 invariant[C16] rangeindex + 1 <= len(a)
+//@   loop 1 decreases len(a) - rangeindex
+//@   loop 1 step[C16,C05] called_sizeJSONValue && size == head_size + vlen(uint64(call_sizeJSONValue_r0)) + call_sizeJSONValue_r0
+
+//@ func plenccodec.JSONArrayCodec.append
+//@   safety C16 C11
+//@   trust panic
+//@   assigns nothing
+//@   assume 0 <= loadi64(ptr + 8) && loadi64(ptr + 8) <= loadi64(ptr + 16) && loadi64(ptr + 16) < (1 << 40)   # the value is a well-formed slice header
+//@   loop 1 invariant[C06,C11] rangeindex + 1 <= len(a) && len(data) >= len(data0) + vlen(uint64(len(a))) && (forall j int :: 0 <= j && j < len(data0) ==> data[j] == data0[j])
+//@   loop 1 invariant[C16,C02] at(data, len(data0), venc(uint64(len(a))), 10)
+//@   loop 1 decreases len(a) - rangeindex
+//@   # every element is written behind the size sizeJSONValue announces for the same value
+//@   loop 1 step[C16,C05] called_appendJSONValue && called_sizeJSONValue && call_AppendVarUint_arg1 == uint64(call_sizeJSONValue_r0) && call_sizeJSONValue_arg0 == call_appendJSONValue_arg1
+//@   ensures[C16,C02] at(result, len(data), venc(uint64(loadi64(ptr + 8))), 10)          # the body starts with the element count
+//@   ensures[C06,C11] len(result) >= len(data) && (forall j int :: 0 <= j && j < len(data) ==> result[j] == old(data[j]))
+
+//@ func plenccodec.JSONArrayCodec.Size
+//@   safety C16
+//@   trust panic
+//@   pure H B
+//@   assigns nothing
+//@   assume 0 <= loadi64(ptr + 8) && loadi64(ptr + 8) <= loadi64(ptr + 16) && loadi64(ptr + 16) < (1 << 40)   # the value is a well-formed slice header
+
+//@ func plenccodec.JSONArrayCodec.Append
+//@   safety C16 C11
+//@   trust panic
+//@   assigns nothing
+//@   assume 0 <= loadi64(ptr + 8) && loadi64(ptr + 8) <= loadi64(ptr + 16) && loadi64(ptr + 16) < (1 << 40)   # the value is a well-formed slice header
+//@   ensures[C06,C11] len(result) >= len(data) && (forall j int :: 0 <= j && j < len(data) ==> result[j] == old(data[j]))
+
+//@ func plenccodec.JSONMapCodec.Size
+//@   safety C16
+//@   trust panic
+//@   pure H B
+//@   assigns nothing
+
+//@ func plenccodec.JSONMapCodec.Append
+//@   safety C16 C11
+//@   trust panic
+//@   assigns nothing
+//@   ensures[C06,C11] len(result) >= len(data) && (forall j int :: 0 <= j && j < len(data) ==> result[j] == old(data[j]))
+
+//@ # objects: count, then every entry (key = field 1, type marker = field 2, value = field 3) behind the size sizeKV announces
+//@ func plenccodec.JSONMapCodec.size
+//@   safety C16
+//@   trust panic
+//@   assigns nothing
+//@   loop 1 invariant[C16] true
+//@   loop 1 step[C16,C05] called_JSONMapCodec_sizeKV && size == head_size + vlen(uint64(call_JSONMapCodec_sizeKV_r0)) + call_JSONMapCodec_sizeKV_r0
+
+//@ func plenccodec.JSONMapCodec.append
+//@   safety C16 C11
+//@   trust panic
+//@   assigns nothing
+//@   loop 1 invariant[C06,C11] len(data) >= len(data0) && (forall j int :: 0 <= j && j < len(data0) ==> data[j] == data0[j])
+//@   # every entry is written behind the size sizeKV announces for the same key and value
+//@   loop 1 step[C16,C05] called_JSONMapCodec_appendKV && called_JSONMapCodec_sizeKV && call_AppendVarUint_arg1 == uint64(call_JSONMapCodec_sizeKV_r0) && call_JSONMapCodec_sizeKV_arg1 == call_JSONMapCodec_appendKV_arg2 && call_JSONMapCodec_sizeKV_arg2 == call_JSONMapCodec_appendKV_arg3
+//@   ensures[C06,C11] len(result) >= len(data) && (forall j int :: 0 <= j && j < len(data) ==> result[j] == old(data[j]))
+
+//@ func plenccodec.JSONMapCodec.sizeKV
+//@   safety C16
+//@   trust panic
+//@   assigns nothing
+//@   ensures[C16,C05] size == 1 + vlen(uint64(len(k))) + len(k) + @plenccodec.sizeJSONValue(v)        # the key as string field 1, then the typed value
+
+//@ func plenccodec.JSONMapCodec.appendKV
+//@   safety C16 C11
+//@   trust panic
+//@   assigns nothing
 //@   ensures[C06,C11] len(result) >= len(data) && (forall j int :: 0 <= j && j < len(data) ==> result[j] == old(data[j]))
